@@ -27,6 +27,7 @@ def main():
     ap.add_argument("--logdir", default="/tmp")
     ap.add_argument("--seed", type=int, default=0)
     ap.add_argument("--replay")
+    ap.add_argument("--only")
     a = ap.parse_args()
     if a.list:
         for f in obligations.REGISTRY.get(a.list, []):
@@ -63,6 +64,8 @@ def main():
             results.append({"name": gen.__name__, "status": "error", "detail": f"{type(e).__name__}: {e}\n{traceback.format_exc()[-1200:]}"})
             continue
         for o in obls:
+            if a.only and not __import__("re").search(a.only, o.name):
+                continue
             results.append(decide_obligation(o, timeout, smtdir, a.logdir, val, env))
     json.dump(results, open(a.out, "w"), indent=1, default=str)
     return 0
@@ -221,15 +224,20 @@ def validate_translator(env, seed, log):
 
 
 def do_replay(path, logdir):
+    """A recorded SMT counterexample is re-judged by re-running its obligation against the current
+    tree: the obligation (re-encoded from the current MIR) must still fail and its counterexample
+    must still reproduce natively."""
     rp = json.load(open(path))
-    if not rp.get("native_cmd"):
-        print("replay: this obligation has no native replay command")
-        return 2
-    js = engine.native([rp["native_cmd"]], os.path.join(logdir, "native.log"))[0]
-    print("native:", js)
-    print("recorded:", rp.get("native_out"))
-    # the violation predicate is obligation-specific; a replay is judged by re-running the obligation
-    return 0 if js == rp.get("native_out") and False else (1 if js == rp.get("native_out") else 0)
+    import subprocess
+
+    out = os.path.join(logdir, "replay.json")
+    subprocess.run([sys.executable, os.path.abspath(__file__), "--prop", rp["property"], "--only", "^" + rp["obligation"] + "$", "--out", out, "--logdir", logdir])
+    res = json.load(open(out))
+    for r in res:
+        print(r["status"], r["name"], (r.get("detail") or "")[:400])
+    if any(r["status"] == "failed" and r.get("reproduced") for r in res):
+        return 1
+    return 0
 
 
 if __name__ == "__main__":
